@@ -297,7 +297,22 @@ fn judge_c09(name: &str, input: &str, setting: &Setting, sab: &Sabotage) -> Case
     }
     r.count("parsed_inputs", 1);
     r.seen("settings", &setting.label());
-    let f1 = sabotage_text(sab, &fx.formatted.unwrap());
+    let mut f1 = sabotage_text(sab, &fx.formatted.clone().unwrap());
+    // the parser's comment list of the original (a sabotage may thin it out, like a parser that
+    // drops comments while parsing would)
+    let mut in_comments = fx.stream.comments.clone();
+    if sab.0.as_deref() == Some("parser_drops_starrun") {
+        in_comments.retain(|c| !c.trim_end().ends_with("**/"));
+        let mut t = String::new();
+        for tok in vcommon::lex::lex(&f1, false) {
+            if tok.kind == vcommon::lex::Kind::BlockComment && tok.text.ends_with("**/") {
+                continue;
+            }
+            t.push_str(&tok.text);
+        }
+        f1 = t;
+    }
+    let f1 = f1;
     let replay = || {
         let mut c = replay_case(name, input, setting);
         c["formatted"] = json!(f1);
@@ -347,7 +362,7 @@ fn judge_c09(name: &str, input: &str, setting: &Setting, sab: &Sabotage) -> Case
         );
     }
     // (3) comments
-    let cma = normalise_comments(&fx.stream.comments);
+    let cma = normalise_comments(&in_comments);
     let cmb = normalise_comments(&ff.stream.comments);
     r.count("comments_compared", cma.len() as i64);
     if !fx.stream.comments.is_empty() {
@@ -705,6 +720,16 @@ pub fn main(args: Args) {
             ("comments_compared", 800),
             ("emit_pairs_compared", 100),
             ("cases_where_trailing_separators_changed", 12),
+            ("block_comments_closed_by_star_run", 120),
+            ("block_comments_closed_by_star_run:2", 50),
+            ("block_comments_closed_by_star_run:3", 30),
+            ("block_comments_closed_by_star_run:4", 30),
+            ("block_comments_opened_by_star_run", 100),
+            ("empty_block_comments", 40),
+            ("comments_glued_to_previous_comment", 50),
+            ("line_comments_holding_block_delimiters", 60),
+            ("texts_starting_with_a_comment", 30),
+            ("texts_ending_in_a_comment_without_newline", 20),
             ("settings", 30),
             ("distinct_nontrivial", 40),
         ]);
